@@ -119,6 +119,16 @@ def norm_pair(rep, I, U):
   x = symarr('x', (2, 3))
   ints = symarr('k', (2,))
   I.dtypes[id(ints)] = ('int', ints)
+  # every non-float kind (signed / unsigned integers, booleans) must pass through both functions untouched
+  for kind in ('uint', 'bool'):
+    leaf = symarr('leaf_' + kind, (2,))
+    I.dtypes[id(leaf)] = (kind, leaf)
+    ms1 = Struct('NestedMeanStd', {'mean': P_zeros((2,)), 'std': avn.P_ones((2,))}, home=MOD)
+    r1 = I.apply(fn(MOD, 'normalize'), [leaf, ms1], {})
+    r2 = I.apply(fn(MOD, 'denormalize'), [leaf, ms1], {})
+    rep.check(r1 is leaf and r2 is leaf, 'R18.3', 'normalize / denormalize leave %s leaves untouched' % kind,
+              'a leaf of dtype kind %s is modified (or replaced) by %s' % (kind, 'normalize' if r1 is not leaf else 'denormalize'),
+              where=fnz.where(), construct='jnp.issubdtype(dtype, jnp.inexact) is false for %s' % kind)
   ms = Struct('NestedMeanStd', {'mean': {'o': symarr('mu', (3,)), 'i': P_zeros((2,))},
                                 'std': {'o': symarr('sd', (3,)), 'i': avn.P_ones((2,))}}, home=MOD)
   batch = {'o': x, 'i': ints}
